@@ -53,6 +53,13 @@ def run(case):
     elif res_cut['problems'] or not M.same_molecule(res_cut['heavy'], truth):
         viol.append(V('c01.cut_vs_truth', f"{MC.case_text(case)} -> {M.describe(res_cut['heavy'])} {res_cut['problems']} "
                       f"but the uncut molecule {case['smiles']!r} is {M.describe(truth)}"))
+    # the same fragments under other spellings of the base graph (another start node, branch order, ring markers)
+    for alt in case.get('alt_base_strings', []):
+        r2 = MC.resolve_case(dict(case, ctor='string', base_string=alt))
+        if r2['error']:
+            viol.append(V('c01.cut_exception', f"{alt}.{case['frag_string']} raised {r2['error']}"))
+        elif r2['problems'] or not M.same_molecule(r2['heavy'], truth):
+            viol.append(V('c01.base_spelling_dependent', f"{alt}.{case['frag_string']} -> {M.describe(r2['heavy'])}; the same fragments under {case['base_string']} / the uncut molecule give {M.describe(truth)}"))
     feats = tuple(sorted(f for f in case['features']))
     return {'violations': viol, 'nontrivial': case['ncuts'] > 0, 'cls': (feats, case['nheavy'], case['nfrag']),
             'sample': MC.case_text(case)}
